@@ -906,13 +906,24 @@ pub fn self_test(case: &Case) -> Result<(), String> {
 /// act on sub-segments whose lengths are no powers of two, so the family is held to a (tight, family-specific)
 /// tolerance rather than to exact equality; the crossing angle is far below anything the other float families contain. Random axis
 /// symmetries / transposition (near-vertical shallow crossings) and an exact translation are applied.
-/// For j <= 14 the case is also representable in f32.
+/// When every input coordinate is representable in f32 (j <= 14: beyond that the crossing points fall within f32 rounding distance of input vertices, which is outside the robust domain) the case is also run in f32.
 pub fn gen_shallow(rng: &mut Rng) -> Case {
     gen_shallow_upto(rng, 28)
 }
 
-/// as `gen_shallow` with k = 2^j, j <= max_j (14 keeps everything representable in f32)
+/// as `gen_shallow` with k = 2^j, j <= max_j
 pub fn gen_shallow_upto(rng: &mut Rng, max_j: i64) -> Case {
+    loop {
+        let c = gen_shallow_once(rng, max_j);
+        // the input-side trigger of the recorded findings N2 / N3 (a crossing within ulps of a left endpoint's abscissa)
+        // is outside the robust domain for this family as for the others
+        if !n2_hazard(&c.a, &c.b, false) {
+            return c;
+        }
+    }
+}
+
+fn gen_shallow_once(rng: &mut Rng, max_j: i64) -> Case {
     let j = rng.range(2, max_j);
     let k = (2.0f64).powi(j as i32);
     let (m, m2) = [(1.0, 1.0), (1.0, 3.0), (3.0, 1.0), (2.0, 2.0)][rng.below(4) as usize];
@@ -963,7 +974,7 @@ pub fn gen_shallow_upto(rng: &mut Rng, max_j: i64) -> Case {
     let (ra, rb) = (fix(&a), fix(&b));
     let swap = rng.below(2) == 0;
     let (pa, pb): (MP, MP) = if swap { (vec![vec![rb]], vec![vec![ra]]) } else { (vec![vec![ra]], vec![vec![rb]]) };
-    let f32_exact = j <= 14 && rings(&pa).chain(rings(&pb)).all(|r| r.iter().all(|p| round_f32(p.0) == p.0 && round_f32(p.1) == p.1));
+    let f32_exact = j <= 14 && rings(&pa).chain(rings(&pb)).all(|r| r.iter().all(|p| round_f32(p.0) == p.0 && round_f32(p.1) == p.1)) && !n2_hazard(&pa, &pb, true);
     Case {
         family: "D6-shallow",
         desc: format!("shallow exact crossing k=2^{} slopes=({}/k,-{}/k) c={} x0={} sym={} shift=({},{})", j, m, m2, c, x0, sym, tx, ty),
